@@ -539,13 +539,15 @@ def run(case):
                 shift = -0.05 * dense[min(nrig, len(dense) - 1)] if nrig else 0.0
                 # ARPACK draws a random start vector by default: the harness owns it (deterministic, generic)
                 v0 = 1.0 + zoo.offarr(seed, 1500, (len(dof1),))
+                # (k = 3: the threaded assembly of the matrices, parallel=True -- same pencil, same pairs)
+                par = k == 3
                 if nrig:
-                    job.evaluate(x0=field, solver=lambda A, M, sigma, **kw: eigsh(A=A, M=M, sigma=shift, **kw), k=k, v0=v0)
+                    job.evaluate(x0=field, solver=lambda A, M, sigma, **kw: eigsh(A=A, M=M, sigma=shift, **kw), parallel=par, k=k, v0=v0)
                 else:
-                    job.evaluate(x0=field, k=k, v0=v0)
+                    job.evaluate(x0=field, parallel=par, k=k, v0=v0)
                 st["trans"] += 1
                 st["states"] += 1
-                sub = f"E={E},nu={nu},rho={rho}/{mlab}/k={k}"
+                sub = f"E={E},nu={nu},rho={rho}/{mlab}/k={k}" + ("/parallel" if par else "")
                 lam_, V = np.asarray(job.eigenvalues), np.asarray(job.eigenvectors)
                 if lam_.shape != (k,) or V.shape != (len(dof1), k):
                     bad(sub + "/shape", "shapes of eigenvalues / eigenvectors", [list(lam_.shape), list(V.shape)], [[k], [len(dof1), k]])
